@@ -50,6 +50,14 @@ Ret(c, ok) ==
                      /\ S' = S \cup {t}
                      /\ pend' = [pend EXCEPT ![c] = Idle, ![d] = [t |-> t, st |-> "lin", r |-> TRUE]]
 
+\* the enabling condition of Ret(c, ok) as a state predicate
+RetPossible(c, ok) ==
+    /\ pend[c].st # "idle"
+    /\ LET t == pend[c].t IN
+       IF pend[c].st = "lin" THEN pend[c].r = ok
+       ELSE IF ok THEN t \notin S
+       ELSE t \in S \/ \E d \in Clients \ {c} : pend[d].st = "called" /\ pend[d].t = t
+
 (* ------------------------- sequential queries -------------------------- *)
 \* keys are compared as unsigned 32-bit words (the order Brie.h documents for lower/upper bound); for non-negative
 \* keys this is the ordinary order
